@@ -51,10 +51,27 @@ func (w *yieldWriter) Write(p []byte) (int, error) {
 	return w.buf.Write(p)
 }
 
-func installLockSeam(r *Run, n *Node, db *litefs.DB) {
+// c10stall describes where the exporting goroutine is held up (a stalled thread):
+// at its at-th lock transition of the current export it sleeps for dur, holding
+// whatever locks it has by then, while writers and checkpointers carry on.
+type c10stall struct {
+	gid uint64
+	at  int
+	dur time.Duration
+	n   int
+}
+
+func installLockSeam(r *Run, n *Node, db *litefs.DB, st *c10stall) {
 	db.VerifSetLockHook(func(lt litefs.LockType, prev, next litefs.RWMutexState) {
 		if s := r.Sched; s != nil {
 			s.Yield(n.ID, "lock", fmt.Sprintf("%s %s->%s", lt, prev, next))
+		}
+		if st != nil && st.gid != 0 && goid() == st.gid {
+			st.n++
+			if st.n == st.at && st.dur > 0 {
+				r.Count("fault.exporter_stalled_at_lock")
+				time.Sleep(st.dur)
+			}
 		}
 	})
 }
@@ -108,7 +125,23 @@ func runC10(r *Run) {
 		}
 	}
 	db := p.Store.DB(name)
-	installLockSeam(r, p, db)
+	stall := &c10stall{}
+	installLockSeam(r, p, db, stall)
+	// The writers, readers and checkpointers of this harness open a connection per
+	// transaction; with nothing else connected each of them is "the first
+	// connection" and rebuilds the wal-index from the log, which forgets how far
+	// the log has been backfilled. An idle long-lived connection (what a real
+	// application has) keeps the wal-index alive, so that backfilled-but-not-yet-
+	// restarted logs and writer-driven log restarts occur.
+	if cs.wal && t.Chance(3, 4) {
+		anchor := cs.connFor(p, name, t.Fork())
+		if anchor.Open() == 0 {
+			if anchor.LockShared() == 0 && anchor.WalOpen() == 0 {
+				r.Count("c10.anchor-connection")
+				r.Cfg["anchor"] = true
+			}
+		}
+	}
 
 	cs.goActor("writer", func() { cs.writerLoop(wt) })
 	if cs.wal {
@@ -116,7 +149,7 @@ func runC10(r *Run) {
 		cs.goActor("checkpointer", func() { c10Checkpointer(cs, p, name, ct) })
 	}
 	et := t.Fork()
-	cs.goActor("exporter", func() { c10Exporter(cs, p, name, et) })
+	cs.goActor("exporter", func() { c10Exporter(cs, p, name, et, stall) })
 	faultW := []int{0, 1, 2}[t.Next(3)]
 	for step := 0; step < 6000 && !r.Failed(); step++ {
 		cs.handleExits()
@@ -179,8 +212,9 @@ func c10Checkpointer(cs *clusterSim, n *Node, name string, t *Tape) {
 	}
 }
 
-func c10Exporter(cs *clusterSim, n *Node, name string, t *Tape) {
+func c10Exporter(cs *clusterSim, n *Node, name string, t *Tape, stall *c10stall) {
 	r := cs.r
+	stall.gid = goid()
 	for {
 		cs.mu.Lock()
 		stop := cs.stopWork || cs.commits >= cs.wantTx
@@ -204,6 +238,11 @@ func c10Exporter(cs *clusterSim, n *Node, name string, t *Tape) {
 		}
 		kind := []string{"export", "snapshot", "http-export"}[t.Next(3)]
 		w := &yieldWriter{r: r, node: n.ID, slow: []int{1, 6, 30}[t.Next(3)], pause: []time.Duration{0, 0, 20 * time.Millisecond, 150 * time.Millisecond}[t.Next(4)]}
+		// half of the exports are held up once, somewhere among their lock transitions
+		stall.n, stall.at, stall.dur = 0, 0, 0
+		if t.Chance(1, 2) {
+			stall.at, stall.dur = t.Range(1, 10), time.Duration(t.Range(5, 400))*time.Millisecond
+		}
 		ctx, cancel := context.WithTimeout(context.Background(), 20*time.Second)
 		var pos ltx.Pos
 		var err error
